@@ -150,6 +150,66 @@ func genUntrusted(tier string, seed uint64) {
 			emitU("json", doc)
 		}
 	}
+	// type-directed inputs: what the marshaller produces for values of many target types, altered at token level (entries
+	// repeated, unknown and IGNORED keys inserted at every position, tokens dropped or replaced, lengths changed, cut
+	// short), then encoded; the unmarshal machines get far into such inputs before anything is wrong with them
+	nper := 3
+	if tier == "thorough" {
+		nper = 150
+	}
+	var typed []reflect.Type
+	for _, v := range []interface{}{Inner{}, WithPtr{}, Emb{}, EmbPtr{}, Rec{}, Tagged{}, OmitAll{}, Nums{}, HasShape{}, MapKeyed{}, TwoMaps{}, StrMap{}, Blob{}, PaySum{},
+		Narrow{}, []Shape{}, map[string]Shape{}, []interface{}{}, map[string]interface{}{}, map[KeyStruct]string{}, []TrNum{}, (***Inner)(nil), [2]TrMap{}, Wide{}} {
+		typed = append(typed, reflect.TypeOf(v))
+	}
+	for _, aid := range []int{1, 2, 3, 4} {
+		for _, t := range typed {
+			if aid == 4 && t == reflect.TypeOf(Emb{}) || aid != 4 && t == reflect.TypeOf(EmbPtr{}) {
+				continue
+			}
+			for i := 0; i < nper; i++ {
+				vd := genValue(r, t, genOpts{depth: 1 + r.intn(3), roundtrip: true, tagged: aid == 2 || aid == 3, cbor: true, jsonSafe: i%2 == 1})
+				res := opMarshal([]string{fmt.Sprint(aid), fmt.Sprint(tid(t)), "0", vd})
+				f := strings.TrimPrefix(strings.Split(res, " ")[0], "I=")
+				if !strings.HasSuffix(f, "/ok") {
+					continue
+				}
+				toks := strings.Split(strings.TrimSuffix(f, "/ok"), ",")
+				if len(toks) > 0 && toks[len(toks)-1] == "" {
+					toks = toks[:len(toks)-1]
+				}
+				if len(toks) == 0 || len(toks) > 60 {
+					continue
+				}
+				variants := [][]string{toks}
+				for m := 0; m < 3; m++ {
+					if mt := mutateToks(r, toks); len(mt) > 0 && len(mt) <= 120 {
+						variants = append(variants, mt)
+					}
+				}
+				if aid == 3 && t == reflect.TypeOf(Emb{}) {
+					variants = append(variants, insertEntries(toks, "s6c6567616379", ignoredValues)...)
+				}
+				for _, v := range variants {
+					ts, err := parseToks(strings.Join(v, ","))
+					if err != nil {
+						continue
+					}
+					for _, ef := range []string{"cbor", "json"} {
+						w := &recordingWriter{}
+						runSteps(newEncoder(ef, w, json.EncodeOptions{}), ts)
+						var b []byte
+						for _, c := range w.calls {
+							b = append(b, c...)
+						}
+						if len(b) > 0 {
+							emit("untrusted %s %d %d %s", ef, aid, tid(t), hexOrDash(b))
+						}
+					}
+				}
+			}
+		}
+	}
 	// adversarial length headers on every major type, with and without data behind them
 	for _, major := range []byte{0x40, 0x60, 0x80, 0xa0, 0xc0} {
 		for _, ln := range []uint64{23, 24, 255, 65536, 1 << 20, 33554431, 33554432, 33554433, 1 << 31, 1 << 40, 1<<63 - 1, 1 << 63, 1<<64 - 1} {
